@@ -696,3 +696,72 @@ def c17(fb, rep):
 
 
 RULES.update({'C17': c17})
+
+
+# ================================================================================================ fifth batch (F110, F111)
+def c16(fb, rep):
+    """R16.7: _evaluateResult() is the one place where the outcome of a floating-point solve inside the exact solver is classified; every arm that ends the
+    refinement (`return true`) leaves the solver without the row objectives of the refined LP (clearRowObjs()) - a stop at a limit is an arm like the
+    others, the object must be usable for the continuation.  (F110)
+    R16.8: the functions that undo an LP extension of the exact solver run after every outcome of the auxiliary solve, including a stop at a limit after
+    which the solution was invalidated (dimension 0): they subscript sol._primal / _dual / _redCost / _slacks only under a condition that says a solution
+    exists (a flag of sol, or the parameter that the caller derives from the solution).  (F111)"""
+    rep.rule('R16.7', '_evaluateResult(): every arm that ends the refinement clears the row objectives of the refined LP', floor=4)
+    fs = [f for f in fb.funcs.values() if f.name.startswith(C + '::_evaluateResult') and f.nodes]
+    if not fs:
+        raise AnalysisBroken('R16.7: _evaluateResult not found')
+    from engine import case_arm_nodes
+    k = 0
+    for f in fs[:1]:
+        for cs in f.nodes:
+            if cs.k not in ('CaseStmt', 'DefaultStmt'):
+                continue
+            if cs.kids and cs.kids[-1].k in ('CaseStmt', 'DefaultStmt'):
+                continue          # label chain, the inner label carries the arm
+            arm = case_arm_nodes(f, cs)
+            rets = [n for n in arm if n.k == 'ReturnStmt']
+            if not any(render(r).replace('return ', '').strip('() ;') == 'true' for r in rets):
+                continue
+            k += 1
+            lab = render(strip(cs.kids[0])).split('::')[-1] if cs.k == 'CaseStmt' else 'default'
+            clears = [n for n in arm if n.k == 'CXXMemberCallExpr' and n.short == 'clearRowObjs']
+            rep.check(bool(clears), 'R16.7', '_evaluateResult|case %s' % lab, '%s:%d' % (f.file, cs.l), 'clearRowObjs()',
+                      'the arm %s stops the refinement without clearRowObjs(): the solver keeps the row objectives of the refined LP and the next optimize() of the object '
+                      'starts from them (assert _solver.maxRowObj(r) == 0.0)' % lab)
+    if k < 4:
+        raise AnalysisBroken('R16.7: only %d terminal arms found in _evaluateResult' % k)
+
+    rep.rule('R16.8', 'the undo functions of the exact solver subscript the solution vectors only under a condition that says a solution exists', floor=8)
+    k = 0
+    for tname, uname in PAIRS_EXACT:
+        u = fb.one(C + '::' + uname)
+        flags = set(p for p, t in u.params if t.replace('const ', '').strip() == 'bool')
+        for n in u.nodes:
+            if not (n.k in ('CXXOperatorCallExpr', 'ArraySubscriptExpr') and (n.o == '[]' or n.k == 'ArraySubscriptExpr')):
+                continue
+            base = strip(n.args()[0] if n.k == 'CXXOperatorCallExpr' else n.kids[0])
+            bt = render(base)
+            if not re.fullmatch(r'sol\._(primal|dual|redCost|slacks)', bt) or u.in_assert(n):
+                continue
+            k += 1
+            guarded = None
+            child = n
+            for a in u.ancestors(n):
+                cond = None
+                if a.k in ('IfStmt', 'ForStmt', 'WhileStmt') and a.kid('cond') is not None and not any(x.i == n.i for x in a.kid('cond').walk()):
+                    cond = render(a.kid('cond'))
+                    if a.k == 'IfStmt' and a.kid('else') is not None and any(x.i == n.i for x in a.kid('else').walk()):
+                        cond = None       # the else branch: the condition is false there
+                elif a.k == 'BinaryOperator' and a.o == '&&' and any(x.i == n.i for x in a.kids[1].walk()):
+                    cond = render(a.kids[0])
+                if cond and (re.search(r'\bsol\.(_is|_has|is|has)\w+', cond) or any(re.search(r'\b%s\b' % re.escape(p), cond) for p in flags)):
+                    guarded = cond
+                    break
+            rep.check(guarded is not None, 'R16.8', '%s|%s[...]#%d' % (uname, bt, k), '%s:%d' % (u.file, n.l), 'under (%s)' % (guarded or '')[:50],
+                      '%s subscripts %s unconditionally: after a stop at a limit the caller invalidated the solution (dimension 0) and still calls %s - out-of-bounds read '
+                      '(assertion n < dim())' % (uname, bt, uname))
+    if k < 8:
+        raise AnalysisBroken('R16.8: only %d subscripts of solution vectors in the undo functions' % k)
+
+
+RULES.update({'C16': c16})
